@@ -50,33 +50,41 @@ type badLookup struct {
 }
 
 type codecObs struct {
-	ID      int         `json:"id"`
-	Case    codecCase   `json:"case"`
-	Top     string      `json:"top"` // kind of the outermost object = decode target
-	Src     string      `json:"src"`
-	Outcome string      `json:"outcome"` // ok | decode-error | encode-error | panic
-	Err     string      `json:"err"`
-	Eq      bool        `json:"eq"`   // encoding equals the source as a JSON value
-	Diff    string      `json:"diff"` // first difference
-	N1      string      `json:"n1"`
-	Idem    bool        `json:"idem"` // decode+encode of n1 reproduces n1 byte for byte
-	N2      string      `json:"n2"`
-	Dups    []string    `json:"dups"`     // member names occurring twice in one object of n1
-	Faith   bool        `json:"faithful"` // n1 parses to the value the model holds (member names)
-	Det     bool        `json:"det"`      // repeated encodings and re-decodings give identical bytes
-	Gob     string      `json:"gob"`      // na | eq | diff | error
-	GobDiff string      `json:"gobdiff"`
-	NPtr    int         `json:"nptr"`
-	BadPtr  []badLookup `json:"badptr"`
-	Names   string      `json:"names"`
-	NMut    int         `json:"nmut"`   // byte-level mutants decoded (totality only)
-	MutBad  []string    `json:"mutbad"` // mutants on which decoding / encoding panicked
+	ID       int         `json:"id"`
+	Case     codecCase   `json:"case"`
+	Top      string      `json:"top"` // kind of the outermost object = decode target
+	Src      string      `json:"src"`
+	Outcome  string      `json:"outcome"` // ok | decode-error | encode-error | panic
+	Err      string      `json:"err"`
+	Eq       bool        `json:"eq"`   // encoding equals the source as a JSON value
+	Diff     string      `json:"diff"` // first difference
+	N1       string      `json:"n1"`
+	Idem     bool        `json:"idem"` // decode+encode of n1 reproduces n1 byte for byte
+	N2       string      `json:"n2"`
+	Dups     []string    `json:"dups"`     // member names occurring twice in one object of n1
+	Faith    bool        `json:"faithful"` // n1 parses to the value the model holds (member names)
+	Det      bool        `json:"det"`      // repeated encodings and re-decodings give identical bytes
+	Gob      string      `json:"gob"`      // na | eq | diff | error
+	GobDiff  string      `json:"gobdiff"`
+	NPtr     int         `json:"nptr"`
+	BadPtr   []badLookup `json:"badptr"`
+	Names    string      `json:"names"`
+	ValidIn  string      `json:"validin"` // C19: verdicts of the schema validator, filled by the driver ("n" = not run)
+	ValidRT  string      `json:"validrt"`
+	ValidExp string      `json:"validexp"`
+	Expanded string      `json:"expanded"` // -expand: JSON of the document after a full ExpandSpec
+	ExpErr   string      `json:"experr"`
+	SrcRaw   string      `json:"srcraw"`
+	N1Raw    string      `json:"n1raw"`
+	NMut     int         `json:"nmut"`   // byte-level mutants decoded (totality only)
+	MutBad   []string    `json:"mutbad"` // mutants on which decoding / encoding panicked
 }
 
 var codecFlags struct {
 	names  string
 	vocab  string
 	mutate int
+	expand bool
 }
 var codecCounter int
 var vocab struct {
@@ -89,6 +97,7 @@ func init() {
 			fs.StringVar(&codecFlags.names, "names", "plain", "member-name class for map keys: plain | special")
 			fs.StringVar(&codecFlags.vocab, "vocab", "", "Vocabulary.json written by tools/gen_vocabulary.py")
 			fs.IntVar(&codecFlags.mutate, "mutate", 0, "byte-level mutants per document (truncations and flips)")
+			fs.BoolVar(&codecFlags.expand, "expand", false, "also expand whole documents (C19)")
 		},
 		init: func() error {
 			b, err := osReadFile(codecFlags.vocab)
@@ -109,7 +118,8 @@ func init() {
 		crashed: func(line []byte, outcome, detail string) interface{} {
 			var c codecCase
 			_ = json.Unmarshal(line, &c)
-			return &codecObs{Case: c, Outcome: outcome, Err: ascii(detail), Dups: []string{}, BadPtr: []badLookup{}}
+			return &codecObs{Case: c, Outcome: outcome, Err: ascii(detail), Dups: []string{}, BadPtr: []badLookup{}, MutBad: []string{},
+				ValidIn: "n", ValidRT: "n", ValidExp: "n", Gob: "na"}
 		},
 	}
 }
@@ -417,10 +427,19 @@ func valueFor(name, vt, cls string, wild bool) interface{} {
 		}
 		return obj{"application/json": obj{"a": 1}}
 	case "ref":
-		if cls == "refRemote" {
-			return "other.json#/definitions/X"
+		sec := "definitions/X"
+		switch refKind {
+		case "parameter":
+			sec = "parameters/X"
+		case "response":
+			sec = "responses/X"
+		case "pathItem":
+			sec = "paths/~1x"
 		}
-		return "#/definitions/X"
+		if cls == "refRemote" {
+			return "other.json#/" + sec
+		}
+		return "#/" + sec
 	}
 	how, kk := kidKind(vt)
 	switch how {
@@ -466,8 +485,21 @@ func fill(d obj, kind string) obj {
 }
 
 // build renders the case: the outermost value and the kind it is decoded as.
+var refKind string // kind of the object whose $ref is being rendered
+
+// refTargets: what the $refs of the valid family point at
+func refTargets() obj {
+	return obj{
+		"definitions": obj{"X": obj{"type": "string"}},
+		"parameters":  obj{"X": obj{"name": "x", "in": "query", "type": "string"}},
+		"responses":   obj{"X": obj{"description": "x"}},
+		"paths":       obj{"/x": obj{"get": obj{"responses": obj{"200": obj{"description": "ok"}}}}},
+	}
+}
+
 func build(c codecCase) (interface{}, string) {
 	wild := c.Fam == "wild"
+	refKind = c.Kind
 	focus := minimalDoc(c.Kind, c.Fl)
 	onlyRef := false
 	for _, m := range c.Members {
@@ -516,6 +548,23 @@ func build(c codecCase) (interface{}, string) {
 		}
 		cur = outer
 		top = e.Kind
+	}
+	if c.Fam == "valid" {
+		// make every $ref resolvable inside the document
+		if root, ok := cur.(obj); ok && top == "swagger" {
+			for sec, m := range refTargets() {
+				cur0, _ := root[sec].(obj)
+				if cur0 == nil {
+					cur0 = obj{}
+				}
+				for k, v := range m.(obj) {
+					if _, has := cur0[k]; !has {
+						cur0[k] = v
+					}
+				}
+				root[sec] = cur0
+			}
+		}
 	}
 	return cur, top
 }
@@ -675,7 +724,7 @@ func trim(s string, n int) string {
 
 func runCodec(id int, c codecCase) (o *codecObs) {
 	o = &codecObs{ID: id, Case: c, Dups: []string{}, BadPtr: []badLookup{}, Gob: "na", Det: true, Faith: true, Names: codecFlags.names,
-		MutBad: []string{}}
+		MutBad: []string{}, ValidIn: "n", ValidRT: "n", ValidExp: "n"}
 	defer func() {
 		if r := recover(); r != nil {
 			o.Outcome, o.Err = "panic", ascii(fmt.Sprint(r))
@@ -758,6 +807,20 @@ func runCodec(id int, c codecCase) (o *codecObs) {
 				o.Gob, o.GobDiff = "diff", ascii(d)
 			} else {
 				o.Gob = "eq"
+			}
+		}
+	}
+	if codecFlags.expand && top == "swagger" {
+		o.SrcRaw, o.N1Raw = string(src), string(n1)
+		var sw spec.Swagger
+		if err := json.Unmarshal(src, &sw); err == nil {
+			targets := mustJSON(refTargets())
+			err := spec.ExpandSpec(&sw, &spec.ExpandOptions{RelativeBase: "file:///w/r/root.json",
+				PathLoader: func(u string) (json.RawMessage, error) { return json.RawMessage(targets), nil }})
+			if err != nil {
+				o.ExpErr = ascii(err.Error())
+			} else if b, err := json.Marshal(&sw); err == nil {
+				o.Expanded = string(b)
 			}
 		}
 	}
